@@ -122,10 +122,10 @@ var renameCalls = map[string]bool{"rename": true, "renameat": true, "renameat2":
 type fsRun struct {
 	stdout   string
 	calls    []*sysCall
-	worker   int   // thread that runs the script
+	worker   int     // thread that runs the script
 	opCalls  [][]int // indices into calls per operation, markers excluded
-	begins   []int // index of the BEGIN marker write per operation
-	ends     []int // index of the END marker write per operation (or -1)
+	begins   []int   // index of the BEGIN marker write per operation
+	ends     []int   // index of the END marker write per operation (or -1)
 	endText  []string
 	killed   bool
 	exitCode int
@@ -444,7 +444,7 @@ func checkSaveOrder(c *run.Ctx, r *fsRun, op int, o fsops.Op, dir string, detail
 
 type c19Stats struct {
 	kills, killsInside, fsizeKills, faults, orderChecked, verifies int
-	kinds                                                         map[string]bool
+	kinds                                                          map[string]bool
 }
 
 func genScript(c *run.Ctx) []fsops.Op {
